@@ -151,6 +151,10 @@ class LOC(dns.rdata.Rdata):
         _check_coordinate_list(longitude, -180, 180)
         self.longitude = tuple(longitude)  # pyright: ignore
         self.altitude = float(altitude)
+        # The wire form is an unsigned 32-bit number of centimeters above a base
+        # 100,000m below the reference spheroid (this also rejects NaN).
+        if not -10000000.0 <= self.altitude <= 4284967295.0:
+            raise ValueError("altitude out of range")
         self.size = float(size)
         self.horizontal_precision = float(hprec)
         self.vertical_precision = float(vprec)
@@ -255,7 +259,9 @@ class LOC(dns.rdata.Rdata):
         t = tok.get_string()
         if t[-1] == "m":
             t = t[0:-1]
-        altitude = float(t) * 100.0  # m -> cm
+        # m -> cm; round as float arithmetic may land just below the intended
+        # value (e.g. 0.29 * 100.0 == 28.999999999999996)
+        altitude = round(float(t) * 100.0)
 
         tokens = tok.get_remaining(max_tokens=3)
         if len(tokens) >= 1:
